@@ -2,8 +2,10 @@ package mc
 
 import (
 	"fmt"
+	"os"
 	"reflect"
 	"runtime"
+	"strconv"
 	"sync"
 )
 
@@ -226,3 +228,15 @@ func Atomic0(f func()) {
 	f()
 	s.note(s.cur, "atomic0")
 }
+
+// procs is what runtime.GOMAXPROCS(0) / runtime.NumCPU() answer in instrumented
+// code: VERIF_PROCS when set, the real value otherwise.
+var procs = func() int {
+	if n, err := strconv.Atoi(os.Getenv("VERIF_PROCS")); err == nil && n > 0 {
+		return n
+	}
+	return runtime.GOMAXPROCS(0)
+}()
+
+// Procs stands in for runtime.GOMAXPROCS(n) and runtime.NumCPU().
+func Procs() int { return procs }
